@@ -26,16 +26,15 @@ def evaluate(case, res):
     # the walker must follow the session while it runs: drive it from the segments afterwards, but the
     # before/after state of a listing has to be sampled live, so listings are checked in a second pass
     states = []
-    orig_run = s.run_command
 
-    def run_command(text):
-        before = state_of(s, list(s.ctl.all_messages)[-12:])
-        orig_run(text)
-        after = state_of(s, list(s.ctl.all_messages)[-12:])
-        states.append((text, before, after))
-    s.on_command = None
-    s.run_command = run_command
-    segs = s.run(case['items'])
+    def before_cmd(sess, text):
+        pre['before'] = state_of(s, list(s.ctl.all_messages)[-12:])
+
+    def after_cmd(sess, text):
+        states.append((text, pre['before'], state_of(s, list(s.ctl.all_messages)[-12:])))
+    s.on_command = before_cmd
+    s.after_command = after_cmd
+    segs = s.run(case['items'], prompt=case.get('prompt', False))
     si = 0
     binding_cap = False
     nonempty_partial = False
@@ -80,7 +79,7 @@ def evaluate(case, res):
                 if any(session.MSG_LINE.match(l) for l in out):
                     res.bad('malformed-list-matcher-lists-messages', seg.text)
                 continue
-            matches = lambda m: lm.matches(m)
+            matches = lambda m: w.parse(mt).matches(m)      # a fresh instance per message: the expectation is a function of (expression, message) only
         else:
             if w.unknown:
                 res.count('filter-meaning-not-modelled(skipped)')
@@ -147,7 +146,9 @@ class Listings(Stage):
         return 300 if tier == 'quick' else 14 * 2500
 
     def gen(self, d, tier):
-        specs = histgen.history(d, nconn=d.int(1, 3), nmsg=d.int(4, 36), profile=PROFILE, tagged=True)
+        nil_rich = d.chance(0.35)
+        prof = dict(PROFILE, weights=dict(PROFILE.get('weights') or {}, nulls=40, bind=20, message=30, delete=8)) if nil_rich else PROFILE
+        specs = histgen.history(d, nconn=d.int(1, 3), nmsg=d.int(4, 36), profile=prof, tagged=True)
         initial = None
         if d.chance(0.3):
             initial = scripts.gen_matcher_text(d, rm.Gen(d, rm.vocab(specs), 1))
@@ -162,11 +163,18 @@ class Listings(Stage):
             pos = d.int(0, len(items))
             items[pos:pos] = [['cmd', 'filter !'], ['cmd', 'filter ' + x, None, dict(alts=[x], excl=[])],
                               ['cmd', 'filter ' + t, None, dict(alts=[a.strip() for a in t.split(',')], excl=[])], ['cmd', 'list ' + t], ['cmd', 'list']]
+        niltypes = sorted({a[1] for m in specs for a in m['args'] if a[0] == 'obj' and a[2] is None and a[1]})
+        if niltypes and d.chance(0.95 if nil_rich else 0.25):
+            # nil arguments carry their declared interface: listings by interface over nil arguments of several interfaces
+            for _ in range(d.int(2, 4)):
+                t = d.choice(niltypes)
+                items.append(['cmd', d.choice(['list %s', 'list (%s)', 'list %s, wl_registry', 'list * ! %s']) % t + d.choice(['', '', ' ~ 2'])])
         # always end with a few listings so that every session has some
         g = rm.Gen(d, rm.vocab(specs), 1)
         for _ in range(d.int(1, 3)):
             items.append(['cmd', 'list ' + scripts.gen_matcher_text(d, g) + d.choice(['', ' ~ 1', ' ~ 2', ' ~ 3', ' ~ 100'])])
-        return dict(dialect='new', specs=specs, initial_filter=initial, items=items)
+        # the final listings are typed at the tool's own prompt after the input ended (file / run mode) or between lines
+        return dict(dialect='new', specs=specs, initial_filter=initial, items=items, prompt=d.chance(0.5))
 
     def execute(self, case):
         res = Result()
